@@ -1,7 +1,7 @@
 """C05 — relayed data arrives complete, ordered and intact, or the reader is dropped"""
 from relaymain import RelayMainMode, RELAYMAIN_RULE
 from lagcommon import LagMode, LAG_RULE
-from hubcommon import HubMode
+from hubcommon import HubMode, GenHubMode
 from relaycommon import RelayMode
 
 RULE = ("hub mode (see C03): writers and readers with buffers 1..8, drains at arbitrary cut points (frames merging 1..8 queued "
@@ -20,4 +20,10 @@ RULE = RULE + RELAYMAIN_RULE
 
 
 def modes(tier):
-    return [HubMode("C05"), RelayMode("C05"), LagMode("C05"), RelayMainMode("C05", 2)]
+    return [HubMode("C05"), GenHubMode("C05"), RelayMode("C05"), LagMode("C05"), RelayMainMode("C05", 2)]
+
+# the hub's event loop as translated from the current source (Relay/Tie/Hub.lean)
+from tiecommon import TIE_HUB, TIE_HUB_NOTE, TIE_HUB_ASSUMPTION
+THEOREMS = THEOREMS + TIE_HUB
+RULE = TIE_HUB_NOTE + RULE
+ASSUMPTIONS = ASSUMPTIONS + [TIE_HUB_ASSUMPTION]
